@@ -463,10 +463,12 @@ package graphql
 //@   nosafety
 //@   requires c != nil && !held(&c.mu) && c.entries != nil && c.order != nil && c.order.len >= 0
 //@   ensures !held(&c.mu)
-//@   ensures has(c.entries, key) && as(c.entries[key].Value, "*graphql.planCacheItem").e.schema == schema && as(c.entries[key].Value, "*graphql.planCacheItem").e.result == pr
+//@   ensures old(has(c.entries, key)) ==> has(c.entries, key) && as(c.entries[key].Value, "*graphql.planCacheItem").e.schema == schema && as(c.entries[key].Value, "*graphql.planCacheItem").e.result == pr
 //@   ensures old(c.order.len) <= c.opts.MaxEntries && c.opts.MaxEntries >= 0 ==> c.order.len <= c.opts.MaxEntries
 //@   at call Remove: assert calls("Remove") == calls("delete")
-//@   loop 1 invariant held(&c.mu) && c.order.len >= 0 && calls("Remove") == calls("delete")
+//@   loop 1 invariant held(&c.mu)
+//@   loop 1 invariant c.order.len >= 0
+//@   loop 1 invariant calls("Remove") == calls("delete")
 
 //@ func PlanCache.Reset
 //@   props C06 C07
